@@ -80,6 +80,41 @@ class TU:
         self.records, self.typedefs, self.fns, self.enums, self.text = {}, {}, {}, {}, b''
         self.tables = {}
         self.field_order = {}
+        self.raw_records = {}      # record name -> [(field, qualType)] in declaration order (every field, also aggregates)
+        self.globals = {}          # file-scope objects that are not constant tables: name -> qualType
+        self.inmem = set()         # record names whose pointers are NOT flattened: members are read and written in memory
+
+    def record_name(self, q):
+        q = self.resolve(q)
+        q = q[len('struct '):] if q.startswith('struct ') else q
+        return q if q in self.raw_records else None
+
+    def alignof(self, q):
+        q = self.resolve(q)
+        m = re.fullmatch(r'(.*)\[(\d+)\]', q)
+        if m:
+            return self.alignof(m.group(1))
+        rn = self.record_name(q)
+        if rn is not None:
+            return max([self.alignof(fq) for _, fq in self.raw_records[rn]] or [1])
+        sz = self.sizeof(q)
+        if sz is None:
+            raise Unsupported('alignment of ' + q)
+        return sz
+
+    def layout(self, rn):
+        """(size, {field: (offset, qualType)}) of a structure, x86-64 System V rules (natural alignment, no packing, no bit-fields)"""
+        off, al, out = 0, 1, {}
+        for f, fq in self.raw_records[rn]:
+            a = self.alignof(fq)
+            sz = self.sizeof(fq)
+            if sz is None:
+                raise Unsupported(f'layout of {rn}.{f}')
+            off = (off + a - 1) // a * a
+            out[f] = (off, fq)
+            off += sz
+            al = max(al, a)
+        return ((off + al - 1) // al * al, out)
 
     def const_table(self, d):
         """(values, element type) of a `const` array whose initialiser is a list of integer constant expressions, else None"""
@@ -141,6 +176,16 @@ class TU:
             return 1                      # GNU C: arithmetic on void * counts bytes
         if q.startswith('enum '):
             return 4
+        m = re.fullmatch(r'(.*)\[(\d+)\]', q)
+        if m:
+            e = self.sizeof(m.group(1))
+            return None if e is None else e * int(m.group(2))
+        rn = self.record_name(q)
+        if rn is not None:
+            try:
+                return self.layout(rn)[0]
+            except Unsupported:
+                return None
         return None
 
     def vtype_q(self, q):
@@ -167,6 +212,8 @@ class TU:
             return None
         p = self.resolve(q[:-1].strip())
         p = p.replace('struct ', '')
+        if p in self.inmem:
+            return None
         return self.records.get(p)
 
 
@@ -243,6 +290,12 @@ class Fn:
         if k == 'DeclRefExpr':
             nm = n['referencedDecl']['name']
             if nm not in env:
+                if '@' + nm in env:
+                    return ('var', '@' + nm)                 # a file-scope integer / pointer object
+                if '@&' + nm in env:
+                    return ('agg', env['@&' + nm], self.tu.globals[nm])   # a file-scope aggregate kept in memory
+                if nm in self.gstructs:
+                    return ('gagg', nm, self.tu.globals[nm])  # a file-scope structure whose scalar members are variables
                 raise Unsupported('variable outside the function: ' + nm)
             return ('var', nm)
         if k == 'MemberExpr':
@@ -251,6 +304,28 @@ class Fn:
                 key = base['referencedDecl']['name'] + '->' + n['name']
                 if key in env:
                     return ('var', key)
+            if n.get('isArrow'):
+                # a structure in memory reached through a pointer value
+                bq = n['inner'][0]['type'].get('desugaredQualType', n['inner'][0]['type']['qualType'])
+                rq = self.tu.resolve(bq)
+                rn = self.tu.record_name(rq[:-1].strip()) if rq.endswith('*') else None
+                if rn is None:
+                    raise Unsupported('member access through a pointer to an unknown structure: ' + n.get('name', '?'))
+                return self.member_at(self.ev(n['inner'][0], env), rn, n['name'])
+            blv = self.lvalue(n['inner'][0], env)
+            if blv[0] == 'gagg':
+                key = f'@{blv[1]}.{n["name"]}'
+                if key in env:
+                    return ('var', key)
+                if '@&' + key[1:] in env:
+                    rn = self.tu.record_name(blv[2])
+                    return ('agg', env['@&' + key[1:]], self.tu.layout(rn)[1][n['name']][1])
+                raise Unsupported('member of a file-scope structure outside the translated state: ' + key[1:])
+            if blv[0] == 'agg':
+                rn = self.tu.record_name(blv[2])
+                if rn is None:
+                    raise Unsupported('member of a non-structure')
+                return self.member_at(blv[1], rn, n['name'])
             raise Unsupported('member access outside the flattened parameters: ' + n.get('name', '?'))
         if k == 'UnaryOperator' and n['opcode'] == '*':
             base = strip(n['inner'][0])
@@ -268,8 +343,22 @@ class Fn:
             if not bt.ptr:
                 b, i, bt, it = i, b, it, bt
             addr = self.ptr_add(self.ev(b, env), bt, self.ev(i, env), it, '+')
+            nq = n['type'].get('desugaredQualType', n['type']['qualType'])
+            if self.is_aggregate(nq):
+                return ('agg', addr, nq)
             return ('mem', addr, self.tu.vtype(n), bt)
         raise Unsupported('lvalue ' + k)
+
+    def is_aggregate(self, q):
+        q = self.tu.resolve(q)
+        return bool(re.fullmatch(r'.*\[\d+\]', q)) or self.tu.record_name(q) is not None
+
+    def member_at(self, addr, rn, field):
+        off, fq = self.tu.layout(rn)[1][field]
+        a = addr if off == 0 else f'({addr} + {lit(off, PTR)})'
+        if self.is_aggregate(fq):
+            return ('agg', a, fq)
+        return ('mem', a, self.tu.vtype_q(fq), T(PTR, False, True, self.tu.sizeof(fq)))
 
     def tag_of(self, n, env):
         """an array object used as a pointer (an array member of a structure parameter, a constant table, a string literal is NOT
@@ -358,7 +447,13 @@ class Fn:
             ck = n.get('castKind')
             inner = n['inner'][0]
             if ck == 'ArrayToPointerDecay':
-                return self.tag_of(strip(inner), env)
+                try:
+                    return self.tag_of(strip(inner), env)
+                except Unsupported:
+                    lv = self.lvalue(inner, env)
+                    if lv[0] != 'agg':
+                        raise
+                    return lv[1]
             if ck in ('LValueToRValue',):
                 return self.read_lv(self.lvalue(inner, env), env)
             if ck in ('NoOp', 'BitCast', 'AtomicToNonAtomic', 'NonAtomicToAtomic'):
@@ -409,6 +504,12 @@ class Fn:
                     v = 0x2000 + sorted(self.local_records).index(nm)
                     self.tags[f'tag_local_{nm}'] = v
                     return lit(v, PTR)
+                try:
+                    lv = self.lvalue(a, env)
+                except Unsupported as e:
+                    raise Unsupported('address-of outside the subset (' + str(e) + ')')
+                if lv[0] in ('mem', 'agg'):
+                    return lv[1]
                 raise Unsupported('address-of outside the subset')
             if op in ('++', '--'):
                 lv = self.lvalue(a, env)
@@ -461,6 +562,12 @@ class Fn:
             return f'(if {self.ev(c, env)} != {lit(0, cw)} then {self.ev(a, env)} else {self.ev(b, env)})'
         if k == 'AtomicExpr':
             return self.atomic(n, env)
+        if k == 'VAArgExpr':
+            # the next variable argument is an input of the definition (`va_<k>`, numbered in execution order)
+            self.nsite['va'] = self.nsite.get('va', 0) + 1
+            t = tu.vtype(n)
+            self.extra_params.append((f'va_{self.nsite["va"]}', t.w))
+            return f'va_{self.nsite["va"]}'
         if k == 'CallExpr':
             return self.call(n, env)
         raise Unsupported('expr ' + k)
@@ -675,6 +782,8 @@ class Fn:
         for p, a in zip(params, args):
             q = p['type'].get('desugaredQualType', p['type']['qualType'])
             rec = self.tu.record_of(q)
+            if '__va_list_tag' in q:
+                continue                   # the variable-argument cursor: `va_arg` reads the next input whatever it is called
             if rec is not None:
                 sa = strip(a)
                 cn = sa.get('referencedDecl', {}).get('name') if sa.get('kind') == 'DeclRefExpr' else None
@@ -696,6 +805,8 @@ class Fn:
         dd = self.dead(env)
         cenv = {'$done': dd if dd in ('false', 'true') else self.bind('skip', dd), '$ret': None, '$exit': 'false',
                 '$ub': env['$ub'], '$exh': env['$exh'], '$mem': env['$mem'], '$path': env.get('$path', 'true')}
+        for gk in [k_ for k_ in env if k_.startswith('@')]:
+            cenv[gk] = env[gk]
         saved = (self.ftype, self.ptype, self.partial, self.in_loop, getattr(self, 'stack', ()))
         self.ftype, self.ptype, self.partial, self.in_loop = dict(self.ftype), dict(self.ptype), dict(self.partial), 0
         self.stack = saved[4] + (fname,)
@@ -718,6 +829,8 @@ class Fn:
         self.depth -= 1
         for ck, pk in back:
             env[ck] = cenv[pk]
+        for gk in [k_ for k_ in env if k_.startswith('@')]:
+            env[gk] = cenv[gk]
         env['$mem'], env['$ub'], env['$exh'] = cenv['$mem'], cenv['$ub'], cenv['$exh']
         return cenv['$ret'] if cenv['$ret'] is not None else '()'
 
@@ -943,6 +1056,31 @@ class Fn:
         else:
             self.ev(n, env)
 
+    def referenced_globals(self, d):
+        """file-scope objects named in the body of `d` or of a unit function it calls (transitively), in order of first mention"""
+        seen, order, fns = set(), [], set()
+        def walk(n):
+            if isinstance(n, dict):
+                if n.get('kind') == 'DeclRefExpr':
+                    rd = n.get('referencedDecl', {})
+                    nm = rd.get('name')
+                    if rd.get('kind') == 'VarDecl' and nm in self.tu.globals and nm not in seen and nm not in self.tu.tables:
+                        if not self.is_local_name(nm, d):
+                            seen.add(nm); order.append(nm)
+                    if rd.get('kind') == 'FunctionDecl' and nm in self.tu.fns and nm not in fns and nm not in self.externs:
+                        fns.add(nm)
+                        walk(self.tu.fns[nm])
+                for v in n.values():
+                    walk(v)
+            elif isinstance(n, list):
+                for v in n:
+                    walk(v)
+        walk(d)
+        return order
+
+    def is_local_name(self, nm, d):
+        return False
+
     def translate(self):
         d = self.decl
         tu = self.tu
@@ -952,8 +1090,35 @@ class Fn:
         sig = {'params': [], 'mem': False, 'ret': False}
         if d.get('variadic'):
             raise Unsupported('variadic function')
+        self.gstructs = set()
+        for g in self.referenced_globals(d):
+            gq = tu.globals[g]
+            rn = tu.record_name(gq)
+            if rn is not None and rn not in tu.inmem:
+                # file-scope structure: integer / pointer members are variables (in and out), aggregate members live in memory at an
+                # address that is a parameter
+                self.gstructs.add(g)
+                for f, (off, fq) in tu.layout(rn)[1].items():
+                    if self.is_aggregate(fq):
+                        params.append((f'{g}_{f}', PTR))
+                        env[f'@&{g}.{f}'] = f'{g}_{f}'
+                    else:
+                        ft = tu.vtype_q(fq)
+                        params.append((f'{g}_{f}', ft.w))
+                        env[f'@{g}.{f}'] = f'{g}_{f}'
+                        outs.append((f'@{g}.{f}', f'{g}_{f}', ft.w))
+            elif self.is_aggregate(gq):
+                params.append((g, PTR))
+                env['@&' + g] = g
+            else:
+                gt = tu.vtype_q(gq)
+                params.append((g, gt.w))
+                env['@' + g] = g
+                outs.append(('@' + g, g, gt.w))
         for p in [c for c in d['inner'] if c['kind'] == 'ParmVarDecl']:
             q = p['type'].get('desugaredQualType', p['type']['qualType'])
+            if '__va_list_tag' in q:
+                continue
             self.ptype[p['name']] = q
             rec = tu.record_of(q)
             pt = tu.vtype(p)
@@ -1082,6 +1247,9 @@ def load(path, extra):
                     except Unsupported:
                         missing.append(f['name'])
                 rec_ = (fields, missing)
+                if not any(f.get('isBitfield') for f in c['inner'] if f['kind'] == 'FieldDecl'):
+                    tu.raw_records[c.get('name', '') or ('<anon@%s>' % c['id'])] = [
+                        (f['name'], f['type'].get('desugaredQualType', f['type']['qualType'])) for f in c['inner'] if f['kind'] == 'FieldDecl' and 'name' in f]
                 tu.field_order[id(rec_)] = [f['name'] for f in c['inner'] if f.get('kind') == 'FieldDecl' and 'name' in f]
                 tu.records[c.get('name', '') or ('<anon@%s>' % c['id'])] = rec_
                 pending[c['id']] = rec_
@@ -1091,12 +1259,17 @@ def load(path, extra):
                     od = ch.get('ownedTagDecl') or (ch.get('inner', [{}])[0].get('decl') if ch.get('inner') else None)
                     if od and od.get('id') in pending:
                         tu.records[c['name']] = pending[od['id']]
+                        anon = '<anon@%s>' % od['id']
+                        if anon in tu.raw_records:
+                            tu.raw_records[c['name']] = tu.raw_records[anon]
             if c['kind'] == 'FunctionDecl' and any(x['kind'] == 'CompoundStmt' for x in c.get('inner', [])):
                 tu.fns[c['name']] = c
             if c['kind'] == 'VarDecl':
                 tb = tu.const_table(c)
                 if tb is not None:
                     tu.tables[c['name']] = tb
+                else:
+                    tu.globals[c['name']] = c['type'].get('desugaredQualType', c['type']['qualType'])
         except (KeyError, TypeError, IndexError):
             continue
     for k, v in list(tu.typedefs.items()):
@@ -1106,9 +1279,10 @@ def load(path, extra):
     return tu
 
 
-def generate(path, fns, namespace, extra=(), fuel=2, fuels=None, externs=()):
+def generate(path, fns, namespace, extra=(), fuel=2, fuels=None, externs=(), inmem=()):
     """Lean source text for the listed functions of one C file, in the order given (callees first)."""
     tu = load(path, list(extra))
+    tu.inmem = set(inmem)
     out = ['-- GENERATED by tools/c2lean2.py from ' + '/'.join(path.split('/')[-2:]) + ' -- do not edit; rewritten on every check run',
            'import Librfn.Gen.Mem', 'set_option linter.unusedVariables false', f'namespace {namespace}', 'open Librfn.Gen', '']
     done = {}
